@@ -168,6 +168,9 @@ UNITS += [
     U("U-dirpriv", ["directive::is_identifier_name", "directive::lowercase_first_letter"], ["dirpriv_is_identifier_name", "dirpriv_lowercase_first_letter", "dirpriv_lowercase_first_letter_multibyte"], ["C04", "C07", "C08"],
       domain="private helpers of directive.rs: all ASCII strings of length <= 3 (identifier-name test; first-letter lower-casing incl. the empty name) and a name starting with a 2-byte character: complete over that domain", mem_gb=4, timeout=600, assumes=[A_DROP]),
     U("U-fragname", ["is_fragment_name"], ["fragment_name_rule"], ["C02", "C10"], completeness="bounded", domain="names of length <= 11 over the alphabet `_Fragment12x`", mem_gb=6, timeout=600),
+    U("U-deserialize", ["<options::Options as serde::Deserialize>::deserialize (derived impl, real serde)"], ["de_empty", "de_only_transform_on", "de_only_optimize", "de_only_merge_props", "de_only_enable_object_slots", "de_only_resolve_type", "de_unknown_key"], ["C14"],
+      completeness="bounded", domain="configuration maps with 0 or 1 entries (each documented boolean key with a symbolic value; one unknown key); pragma / customElementPatterns values not exercised", mem_gb=8, timeout=900,
+      unwindset={"memcmp.0": 21}, assumes=[A_DROP, "serde_json's parser (JSON text -> serde data model) is assumed; the map is fed through serde::de::value::MapDeserializer"]),
     U("U-regexvisit", ["options::RegexVisitor::visit_str", "options::RegexVisitor::visit_string"], ["regex_visit_valid_str", "regex_visit_invalid_str", "regex_visit_valid_string", "regex_visit_invalid_string"], ["C14"],
       completeness="bounded", domain="2 valid and 2 invalid patterns x {visit_str, visit_string}; `regex::Regex::new` by the stand-in's contract (callee assumed)", mem_gb=4, timeout=600, assumes=[A_DROP, A_FMT]),
     U("U-wrap", ["VueJsxTransformVisitor::wrap_children"], ["wrap_no_slots"], ["C13"], completeness="bounded", domain="no v-slots x symbolic options and slot flag", mem_gb=6, timeout=900, assumes=[A_DROP, A_CLONE, A_FMT]),
